@@ -140,7 +140,7 @@ func dhKinds() []kind {
 			curve4q.KeyGen(&p, &s)
 			o.Out("public", p[:])
 		}},
-		{"curve4q.Shared", 90, 6000, func(r *lib.Rng, k int, o *rec) {
+		{"curve4q.Shared", 150, 6000, func(r *lib.Rng, k int, o *rec) {
 			var s, s2, p, sh curve4q.Key
 			r.Read(s[:])
 			if k%4 == 0 {
@@ -156,10 +156,13 @@ func dhKinds() []kind {
 			default:
 				// an arbitrary encoding: y = y0 + y1*i with limb-edge
 				// coordinates (about half of all y are x-coordinates of a point)
-				if r.Bool() {
+				switch r.Intn(4) {
+				case 0:
 					copy(p[:], r.EdgeBytes(32, 1))
-				} else {
+				case 1:
 					copy(p[:], repLimbBytes(r, 32, 1, 0xff))
+				default:
+					copy(p[:], fourqEncoding(r))
 				}
 				p[15] &= 0x7f
 				if r.Bool() {
